@@ -1,0 +1,69 @@
+//go:build verif
+
+package client
+
+import (
+	"perun.network/go-perun/channel"
+	"perun.network/go-perun/wallet"
+	"perun.network/go-perun/wire"
+)
+
+// VerifHandle is Handle for the verification harness. Requests are dispatched
+// exactly like in Handle, with one difference: the goroutine of a channel
+// proposal recovers a panic of handleChannelProposal and reports, through
+// done, when handleChannelProposal has returned (panicked is the recovered
+// value or nil). Without this a panic in the handler goroutine would take the
+// harness process down and "the proposal was dropped" could only be observed
+// through a timeout.
+func (c *Client) VerifHandle(ph ProposalHandler, uh UpdateHandler, done func(p ChannelProposal, panicked interface{})) {
+	if ph == nil || uh == nil || done == nil {
+		c.log.Panic("handlers must not be nil")
+	}
+
+	for {
+		env, err := c.conn.nextReq(c.Ctx())
+		if err != nil {
+			c.log.Debug("request receiver closed: ", err)
+			return
+		}
+		msg := env.Msg
+
+		switch msg := msg.(type) {
+		case *LedgerChannelProposalMsg:
+			go c.verifHandleChannelProposal(ph, env.Sender, msg, done)
+		case *SubChannelProposalMsg:
+			go c.verifHandleChannelProposal(ph, env.Sender, msg, done)
+		case *VirtualChannelProposalMsg:
+			go c.verifHandleChannelProposal(ph, env.Sender, msg, done)
+		case *ChannelUpdateMsg:
+			go c.handleChannelUpdate(uh, env.Sender, msg)
+		case *VirtualChannelFundingProposalMsg:
+			go c.handleChannelUpdate(uh, env.Sender, msg)
+		case *VirtualChannelSettlementProposalMsg:
+			go c.handleChannelUpdate(uh, env.Sender, msg)
+		case *ChannelSyncMsg:
+			go c.handleSyncMsg(env.Sender, msg)
+		default:
+			c.log.Error("Unexpected %T message received in request loop")
+		}
+	}
+}
+
+func (c *Client) verifHandleChannelProposal(
+	ph ProposalHandler, p map[wallet.BackendID]wire.Address, req ChannelProposal,
+	done func(ChannelProposal, interface{}),
+) {
+	defer func() {
+		r := recover()
+		done(req, r)
+	}()
+	c.handleChannelProposal(ph, p, req)
+}
+
+// VerifCurrentTX returns the channel's current transaction (state and
+// signatures) for the verification harness.
+func (c *Channel) VerifCurrentTX() channel.Transaction {
+	c.machMtx.Lock()
+	defer c.machMtx.Unlock()
+	return c.machine.CurrentTX()
+}
